@@ -136,10 +136,10 @@ PROPS = {
         'Same generator and lockstep oracle as C05 with three comparators and keys drawn from three values so that ties are the norm; the model keeps the pending list stably sorted and merges put-back and newly enqueued events with a stable sort.',
         'Trusted: the ordered reference model (std::stable_sort).',
         'Each evaluation is one seeded history as in C05 on EventQueue with OrderedQueueList. Non-trivial = contains a processing call; distinct = distinct plan hashes.'),
-    'C10': seq_prop('seq_list', [st('c10-list', 'seq_list', 'c10', 300000, 6000000), st('c10-queue', 'seq_queue', 'c10', 200000, 4000000), st('c10-heter', 'seq_heter', 'c10', 200000, 4000000)],
+    'C10': seq_prop('seq_list', [st('c10-list', 'seq_list', 'c10', 300000, 6000000), st('c10-queue', 'seq_queue', 'c10', 200000, 4000000), st('c10-heter', 'seq_heter', 'c10', 200000, 4000000), st('c10-filters', 'seq_filter', 'c10', 150000, 3000000)],
         'seeded histories of copy/move/assign/swap over a pool of objects constructed in PRNG-dirtied storage (the injected fault), against a pool of independent models',
         'Seeded search over histories that interleave copy construction, copy assignment (incl. self), move construction, move assignment, swap (member / ADL / self), destruction and re-creation with the full operation sets of C01/C02/C05 on every pool member, for CallbackList, EventDispatcher and EventQueue; every object is placement-constructed into storage filled with random bytes, 0xFF, 0x00 or the previous occupant\'s bytes. Lists with widely different generation counters come from the C19 accessor.',
-        'Trusted: the models; the moved-from std::map is assumed empty (true for libstdc++). Self-move-assignment is not generated. The heterogeneous classes run in the third stage (same pool operations on HeterCallbackList, HeterEventDispatcher, HeterEventQueue).',
+        'Trusted: the models; the moved-from std::map is assumed empty (true for libstdc++). Self-move-assignment is not generated. The heterogeneous classes run in the third stage (same pool operations on HeterCallbackList, HeterEventDispatcher, HeterEventQueue); the fourth stage copies dispatchers/queues that carry MixinFilter / MixinHeterFilter filters and checks that the copy runs the same filters in the same order.',
         'Each evaluation is one seeded history over a pool of up to 4 (lists/dispatchers) or 3 (queues) objects. Non-trivial = the history contains a copy/move/assign/swap; distinct = distinct plan hashes.'),
     'C08': seq_prop('seq_list', [st('c08-list', 'seq_list', 'c08', 250000, 5000000), st('c08-queue', 'seq_queue', 'c08', 200000, 4000000),
          st('c08-exceptions-list', 'seq_list', 'c09', 6000, 200000, 120, 1200), st('c08-exceptions-queue', 'seq_queue', 'c09', 4000, 120000, 120, 1200)],
